@@ -91,6 +91,14 @@ Definition run_ansseek (inp : list Z) : list Z :=
                 let chunks := state_chunks c (st a) in
                 seek_loop (length ops) c false (Some (N.of_nat (length (bulk a) + length chunks))) ms snaps ops
                   {| sd_a := a; sd_beyond := chunks |}
+              else if Z.eqb kind 4 then
+                (* kind 3 turned back by into_reversed: forward coordinates, state words beyond the cursor *)
+                seek_loop (length ops) c false None ms snaps ops
+                  {| sd_a := a; sd_beyond := state_chunks c (st a) |}
+              else if Z.eqb kind 5 then
+                (* owned cursor turned round by into_reversed: reversed coordinates over the bulk only *)
+                seek_loop (length ops) c false (Some (N.of_nat (length (bulk a)))) ms snaps ops
+                  {| sd_a := a; sd_beyond := [] |}
               else
                 seek_loop (length ops) c (Z.eqb kind 2) None ms snaps ops {| sd_a := a; sd_beyond := [] |}
           | [] => [PANIC]
